@@ -77,6 +77,19 @@ def gen_cases(tier, seed):
             plist.append([{'at': s1, 'act': ['abort_task']}, {'at': 'q', 'act': ['kill', 'k']}])
             plist.append([{'at': s1, 'act': ['abort_task']}, {'at': 'q', 'act': ['pause', 'p']}, {'at': 'q', 'act': ['kill', 'k']}])
             plist.append([{'at': s1, 'act': ['abort_task']}, {'at': 'q', 'act': ['restart_task']}, {'at': 'q', 'act': ['kill', 'k']}])
+        # the requester withdraws its kill (cancels the future kill() handed back, as asyncio.wait_for does on a timeout), or the
+        # stepping task is aborted in the same loop iteration as the kill: the probing kill must still terminate the process
+        for s1 in range(0, n + 1):
+            for s2 in (s1, s1 + 1):
+                plist.append([{'at': s1, 'act': ['kill', 'k']}, {'at': s2, 'act': ['cancel_ret', 'kill']}])
+                for s3 in (s2, s2 + 1, s2 + 2):
+                    plist.append([{'at': s1, 'act': ['kill', 'k']}, {'at': s2, 'act': ['cancel_ret', 'kill']}, {'at': s3, 'act': ['kill', 'again']}])
+                plist.append([{'at': s1, 'act': ['kill', 'k']}, {'at': s2, 'act': ['cancel_ret', 'kill']}, {'at': s2, 'act': ['pause', 'p']}])
+                plist.append([{'at': s1, 'act': ['pause', 'p']}, {'at': s2, 'act': ['cancel_ret', 'pause']}, {'at': s2 + 1, 'act': ['kill', 'k']}])
+            plist.append([{'at': s1, 'act': ['kill', 'k']}, {'at': s1, 'act': ['abort_task']}, {'at': 'q', 'act': ['restart_task']}])
+            plist.append([{'at': s1, 'act': ['kill', 'k']}, {'at': s1, 'act': ['abort_task']}])
+            plist.append([{'at': s1, 'act': ['kill', 'k']}, {'at': s1, 'act': ['abort_task']}, {'at': 'q', 'act': ['kill', 'again']}])
+            plist.append([{'at': s1, 'act': ['kill', 'k']}, {'at': s1, 'act': ['abort_task']}, {'at': 'q', 'act': ['pause', 'p']}, {'at': 'q', 'act': ['kill', 'again']}])
         if tier == 'thorough':
             plist += [p for p in plans.sampled_placements(rng, n, ALPHABET, 3, 1500) if _has_kill(p)]
             plist += [p for p in plans.sampled_placements(rng, n, ALPHABET, 4, 800) if _has_kill(p)]
